@@ -1035,7 +1035,7 @@ def _terminator(prog: Program, run: Run) -> None:
             "decode_state.cursor_byte_position != len(decode_state.coded_message) and "
             "decode_state.cursor_byte_position - orig_cursor_pos != self.max_length",
             mode="eval").body)
-        got = conj_test(path_conditions(dcfg, dcfg.node_of(skip[0])))
+        got = conj_test(path_conditions(dcfg, dcfg.node_of(skip[0]), loop_exits=False))
         if got == want:
             run.ok(R, "MinMaxLengthType.decode_from_pdu", "terminator skipped iff not at the end "
                    "of the PDU and fewer than MAX-LENGTH bytes were consumed",
@@ -1087,9 +1087,14 @@ def _terminator(prog: Program, run: Run) -> None:
     al = [x for x in ast.walk(wl[0]) if isinstance(x, ast.If) and "%" in ast.unparse(x.test)]
     want = norm_test(ast.parse("(terminator_pos - orig_cursor_pos) % len(termination_seq) == 0",
                                mode="eval").body)
-    if al and norm_test(al[0].test) == want:
+    # the search may also be written `while pos >= 0 and <misaligned>: pos = find(.., pos + 1)`
+    in_while = False
+    if isinstance(wl[0].test, ast.BoolOp) and isinstance(wl[0].test.op, ast.And):
+        in_while = any("%" in ast.unparse(v) and norm_test(v, negate=True) == want
+                       for v in wl[0].test.values)
+    if in_while or (al and norm_test(al[0].test) == want):
         run.ok(R, "MinMaxLengthType.decode_from_pdu", "a terminator counts only when aligned "
-               "relative to the start of the value", f"{d.module.rel}:{al[0].lineno}")
+               "relative to the start of the value", f"{d.module.rel}:{wl[0].lineno}")
     else:
         run.violation(R, "MinMaxLengthType.decode_from_pdu", "alignment-test",
                       "terminator alignment is not tested relative to the start of the value",
